@@ -113,7 +113,7 @@ func spawnCrash(scn, dir string, at int) (killed bool, out string, err error) {
 			}
 		}
 		return false, buf.String(), e
-	case <-time.After(60 * time.Second):
+	case <-time.After(4 * time.Minute):
 		cmd.Process.Kill()
 		return false, buf.String(), fmt.Errorf("child hung")
 	}
